@@ -122,6 +122,12 @@ pub struct Global {
     pub fns: HashMap<String, FnSig>,
     pub consts: HashMap<String, (Ty, String)>,
     pub ns: String,
+    /// opaque types of the current unit (see `Item::Opaque`)
+    pub opaques: Vec<String>,
+    /// one-expression getters expanded in place: "Type::method" -> (body, self type, result type)
+    pub getters: HashMap<String, (syn::Expr, Ty, Ty)>,
+    /// `impl Deref`: type -> field its `deref` returns
+    pub derefs: HashMap<String, String>,
 }
 
 pub struct LoopCx {
@@ -300,13 +306,14 @@ pub fn rust_ty(t: &syn::Type) -> R<Ty> {
                     });
                 }
             }
-            if STRUCTS.with(|st| st.borrow().contains(&name)) {
-                return Ok(Ty::Struct(name));
-            }
+            // the unit's own readings of a name (opaque types, reader parameters) come before types of earlier units
             if p.path.segments.len() == 1 {
                 if let Some(t) = TYPE_ALIASES.with(|a| a.borrow().get(&name).cloned()) {
                     return Ok(t);
                 }
+            }
+            if STRUCTS.with(|st| st.borrow().contains(&name)) {
+                return Ok(Ty::Struct(name));
             }
             if name == "IgnoredAny" {
                 return Ok(Ty::Unit);
@@ -435,14 +442,18 @@ fn all_structs(file: &syn::File) -> Vec<syn::ItemStruct> {
     v.0
 }
 
-fn translate_struct(file: &syn::File, name: &str, keep: &[&str]) -> R<(Vec<(String, Ty)>, String)> {
+fn translate_struct(file: &syn::File, name: &str, keep: &[&str], opaques: &[String]) -> R<(Vec<(String, Ty)>, String)> {
     for st in &all_structs(file) {
         {
             if st.ident != name {
                 continue;
             }
             let mut fields = vec![];
-            let mut text = format!("/-- `struct {}` (kept fields: {}) -/\nstructure {} where\n", name, keep.join(", "), name);
+            let binders: String = opaques.iter().map(|o| format!(" ({} : Type)", o)).collect();
+            if !opaques.is_empty() {
+                STRUCT_APP.with(|a| a.borrow_mut().insert(name.to_string(), opaques.join(" ")));
+            }
+            let mut text = format!("/-- `struct {}` (kept fields: {}) -/\nstructure {}{} where\n", name, keep.join(", "), name, binders);
             for f in &st.fields {
                 let fname = f.ident.as_ref().ok_or("unsupported: tuple struct")?.to_string();
                 if !keep.contains(&fname.as_str()) {
@@ -467,7 +478,11 @@ pub fn translate_unit(src: &Path, unit: &Unit, g: &mut Global) -> R<String> {
     let text = fs::read_to_string(&path).map_err(|e| format!("unsupported: cannot read {}: {}", path.display(), e))?;
     let file = syn::parse_file(&text).map_err(|e| format!("unsupported: parse error in {}: {}", unit.file, e))?;
     g.ns = unit.module.to_string();
+    CURRENT_FILE.with(|f| *f.borrow_mut() = unit.file.to_string());
     g.externs.clear();
+    g.opaques.clear();
+    g.getters.clear();
+    STRUCT_APP.with(|a| a.borrow_mut().clear());
     TYPE_ALIASES.with(|a| a.borrow_mut().clear());
     let mut out = String::new();
     out.push_str("import SmVerif.Rs.Prelude\n");
@@ -583,7 +598,11 @@ pub fn translate_unit(src: &Path, unit: &Unit, g: &mut Global) -> R<String> {
                     })
                     .ok_or(format!("unsupported: enum {} not found", name))?;
                 let mut variants = vec![];
-                let mut text = format!("/-- `enum {}` -/\ninductive {} where\n", name, name);
+                let binders: String = g.opaques.iter().map(|o| format!(" ({} : Type)", o)).collect();
+                if !g.opaques.is_empty() {
+                    STRUCT_APP.with(|a| a.borrow_mut().insert(name.to_string(), g.opaques.join(" ")));
+                }
+                let mut text = format!("/-- `enum {}` -/\ninductive {}{} where\n", name, name, binders);
                 for v in &en.variants {
                     let tys = match &v.fields {
                         syn::Fields::Unit => vec![],
@@ -619,6 +638,63 @@ pub fn translate_unit(src: &Path, unit: &Unit, g: &mut Global) -> R<String> {
                 out.push_str(&format!("/- external function `{}` ({}): an explicit parameter of every function below -/\n\n", name, sig_text));
                 g.externs.push((name.to_string(), sanitize(name), ty));
             }
+            Item::Deref(name) => {
+                // find `impl Deref for <name>` and read the field out of `fn deref(&self) -> &Self::Target { &self.<field> }`
+                let mut field = None;
+                for it in &file.items {
+                    if let syn::Item::Impl(im) = it {
+                        let is_deref = im.trait_.as_ref().map(|(_, p, _)| path_last_seg(p) == "Deref").unwrap_or(false);
+                        let on = matches!(&*im.self_ty, syn::Type::Path(tp) if path_last_seg(&tp.path) == *name);
+                        if is_deref && on {
+                            for ii in &im.items {
+                                if let syn::ImplItem::Fn(f) = ii {
+                                    if f.sig.ident == "deref" {
+                                        if let [syn::Stmt::Expr(syn::Expr::Reference(r), None)] = f.block.stmts.as_slice() {
+                                            if let syn::Expr::Field(fe) = &*r.expr {
+                                                if matches!(&*fe.base, syn::Expr::Path(p) if p.path.is_ident("self")) {
+                                                    if let syn::Member::Named(id) = &fe.member {
+                                                        field = Some(id.to_string());
+                                                    }
+                                                }
+                                            }
+                                        }
+                                    }
+                                }
+                            }
+                        }
+                    }
+                }
+                let field = field.ok_or(format!("unsupported: `impl Deref for {}` of the form `&self.field` not found", name))?;
+                out.push_str(&format!("/- `impl Deref for {}`: derefs to its field `{}` (method calls it does not answer itself go there) -/\n\n", name, field));
+                g.derefs.insert(name.to_string(), field);
+            }
+            Item::Opaque(name) => {
+                g.opaques.push(name.to_string());
+                TYPE_ALIASES.with(|a| a.borrow_mut().insert(name.to_string(), Ty::Param(name.to_string())));
+                out.push_str(&format!("/- the type `{}` is kept abstract in this unit: a type parameter of everything below -/\n\n", name));
+            }
+            Item::ExternMethod(ty, method, lean, sig_text) => {
+                let t: syn::Type = syn::parse_str(sig_text).map_err(|e| format!("internal: extern type: {}", e))?;
+                let fty = rust_ty(&t)?;
+                out.push_str(&format!("/- method `{}::{}` ({}) is not translated here: an explicit parameter `{}` of every function below -/\n\n", ty, method, sig_text, lean));
+                g.externs.push((format!("{}::{}", ty, method), lean.to_string(), fty));
+            }
+            Item::InlineGetter(ty, method) => {
+                let m = find_method(&file, ty, method)?;
+                let body = match m.block.stmts.as_slice() {
+                    [syn::Stmt::Expr(e, None)] => e.clone(),
+                    _ => return Err(format!("unsupported: {}::{} is no longer a one-expression getter", ty, method)),
+                };
+                if m.sig.inputs.len() != 1 || !matches!(m.sig.inputs.first(), Some(syn::FnArg::Receiver(_))) {
+                    return Err(format!("unsupported: getter {}::{} takes arguments", ty, method));
+                }
+                let ret = match &m.sig.output {
+                    syn::ReturnType::Default => Ty::Unit,
+                    syn::ReturnType::Type(_, t) => rust_ty(t)?,
+                };
+                out.push_str(&format!("/- `{}::{}` (line {}) is a one-expression getter: expanded in place at its call sites -/\n\n", ty, method, m.sig.span().start().line));
+                g.getters.insert(format!("{}::{}", ty, method), (body, Ty::Struct(ty.to_string()), ret));
+            }
             Item::Reader(name) => {
                 TYPE_ALIASES.with(|a| a.borrow_mut().insert(name.to_string(), Ty::Reader));
                 out.push_str(&format!("/- the type parameter `{}: Read` is read as the list of chunks its successive `read` calls deliver (prelude `rsReaderRead`) -/\n\n", name));
@@ -627,7 +703,7 @@ pub fn translate_unit(src: &Path, unit: &Unit, g: &mut Global) -> R<String> {
                 out.push_str(&format!("/- mirror (written by hand in tools/rs2lean/src/targets.rs, part of the trusted base): {} -/\n{}\n\n", name, text));
             }
             Item::Struct(name, keep) => {
-                let (fields, text) = translate_struct(&file, name, keep)?;
+                let (fields, text) = translate_struct(&file, name, keep, &g.opaques.clone())?;
                 out.push_str(&text);
                 g.structs.insert(name.to_string(), fields);
                 if is_packed(&file, name) {
@@ -727,6 +803,9 @@ fn const_expr(e: &syn::Expr, t: &Ty) -> R<String> {
 pub fn signature(_g: &Global, f: &syn::ItemFn, module: &str) -> R<FnSig> {
     let mut generics: Vec<(String, bool)> = vec![];
     GENERICS.with(|g| g.borrow_mut().clear());
+    for o in &_g.opaques {
+        generics.push((o.clone(), false));
+    }
     // first the plain type parameters, then the closure-typed ones (their bounds mention the former)
     for pass in 0..2 {
         for gp in &f.sig.generics.params {
@@ -899,8 +978,17 @@ pub fn translate_fn_named(g: &Global, f: &syn::ItemFn, module: &str, owner: Opti
     Ok((result, fuel))
 }
 
-fn module_file(module: &str) -> String {
-    module.trim_start_matches("Rs").to_lowercase()
+thread_local! {
+    static CURRENT_FILE: std::cell::RefCell<String> = std::cell::RefCell::new(String::new());
+}
+
+/// stem of the Rust file the current unit is translated from
+fn path_last_seg(p: &syn::Path) -> String {
+    p.segments.last().map(|s| s.ident.to_string()).unwrap_or_default()
+}
+
+fn module_file(_module: &str) -> String {
+    CURRENT_FILE.with(|f| f.borrow().trim_end_matches(".rs").to_string())
 }
 
 include!("st.rs");
